@@ -51,6 +51,12 @@ void* vf_realloc(void* q, size_t n)
 }
 void vf_free(void* p) { if (p) --vf_live; free(p); }
 
+/* every observation line is assembled in a memory stream first, so that the interpreter can look
+   at the status it is about to print (strict mode: stop the case at the first failing call) */
+static FILE* LF;
+#define printf(...) fprintf(LF, __VA_ARGS__)
+#define putchar(c) fputc((c), LF)
+
 /* ------------------------------------------------------------------ small utilities */
 typedef struct { unsigned char* p; size_t n; } bytes;
 
@@ -575,6 +581,17 @@ static void run_session(istream* in, const char* mode)
 	if (badout) printf(" #out=set");
 }
 
+static int is_status_op(const char* op)
+{
+	static const char* ops[] = {"obj", "objs", "ocopy", "va", "vaget", "mdnew", "mdadd", "mdaddstr", "mdaddint", "mdrm", "mdget", "mddflt",
+		"mdcopy", "mdfreeze", "cmset", "cmname", "cmtype", "tmnew", "tmadd", "csnew", "csadd", "csget", "tsnew", "tsadd", "wfh", "wtm", "wts",
+		"wend", "wcs", "wva", "wobj", "wobja", "wstr", "wi32", "wi8", "w7", "wsec", "wvt", "rfh", "rtm", "rts", "skts", "rcs", "skcs", "rva",
+		"skva", "robj", "robja", "skobj", "skobja", "rstr", "skstr", "ri32", "ri8", "r7", "rsec", "rvt", 0};
+	int i;
+	for (i = 0; ops[i]; ++i) if (!strcmp(op, ops[i])) return 1;
+	return 0;
+}
+
 static void cleanup_case(void)
 {
 	int i;
@@ -595,6 +612,7 @@ int main(int argc, char** argv)
 	if (argc < 2) { fprintf(stderr, "usage: harness script [-nofork]\n"); return 2; }
 	f = fopen(argv[1], "r"); if (!f) { perror(argv[1]); return 2; }
 	setvbuf(stdout, 0, _IOFBF, 1 << 16);
+	LF = stdout;
 	for (;;)
 	{
 		int eof, iscase;
@@ -616,7 +634,18 @@ int main(int argc, char** argv)
 					char* p = caselines[i]; ntok = 0; lineno = caselno[i];
 					while (*p && ntok < MAXTOK) { while (*p == ' ') ++p; if (!*p) break; tok[ntok++] = p; while (*p && *p != ' ') ++p; if (*p) *p++ = 0; }
 					if (!ntok || tok[0][0] == '#') continue;
-					run_line();
+					{
+						char* lb = 0; size_t ln = 0; LF = open_memstream(&lb, &ln);
+						run_line();
+						fclose(LF); LF = stdout;
+						fputs(lb, stdout);
+						if (strict && is_status_op(tok[0]))
+						{   /* "<lineno> <op> <status>..." */
+							char* q = strchr(lb, ' '); q = q ? strchr(q + 1, ' ') : 0;
+							if (q && atoi(q + 1) != 0) { free(lb); fputs("# stopped after the first failing call\n", stdout); break; }
+						}
+						free(lb);
+					}
 				}
 				cleanup_case();
 				fflush(stdout);
